@@ -4,22 +4,35 @@ import json
 import core
 import mgr
 import wire
+import p_examples
 
 
 class MgrProp(core.Prop):
     def __init__(self, pid):
         self.pid = pid
         self.spec_idx = {"C01": 0, "C07": 1}[pid]
-        self.lean_targets = ["Abmarl.Props." + pid]
+        self.lean_targets = ["Abmarl.Props." + pid, "Abmarl.Props.Examples"]
         self.rule = ("histories of resets and steps played on the real AllStep/TurnBased/DynamicOrder managers over the "
                      "scripted stub simulation (exhaustive small scripts x adaptive action patterns, then seeded random "
                      "scripts/histories); distinct by (manager, script, concrete ops); non-trivial = at least one agent "
-                     "or the simulation finishes during the history")
+                     "or the simulation finishes during the history. Stream `example-mgr`: the real AllStepManager "
+                     "(with and without randomize_action_input) and TurnBasedManager over REAL TeamBattleSim / "
+                     "PredatorPreyResourcesSim / MazeNavigationSim / MultiMazeNavigationSim / TrafficCorridorSimulation "
+                     "objects (random sizes, team layouts, agent mixes), 1-3 episodes on one object under the scripted "
+                     "oracle, actions sampled from the declared action spaces, sometimes an action for an agent "
+                     "already reported done; the trace (outputs, what sim.step was called with, the reward dict right "
+                     "after sim.step and after the call, done flags) is compared with the manager model over the "
+                     "MODEL of the example (op `mgrx`) and judged by specC01 / specC07 exactly as for the stub"
+                     + (p_examples.RULE if pid == "C01" else ""))
         self.assumptions = [
             "theorems quantify over every SimIface whose getters satisfy the stated frame conditions; the differential "
             "test drives the scripted stub family only",
             "a hang of the real code is observed through a 5 s watchdog",
-        ]
+            "example-mgr: a call in which the SIMULATION itself raises (a reset that finds no cell; the steps of the "
+            "findings C02-E2 / C02-E3) ends the history before that call (the manager model's simulation is total; the "
+            "direct-call stream covers those calls); MultiMazeNavigationSim: the model's self-test is specC01 without the "
+            "ledger clause (C01_MultiMaze_partial), the implementation is judged by all of specC01 (finding C01-E1)",
+        ] + (p_examples.ASSUMPTIONS if pid == "C01" else [])
 
     # -- cases ------------------------------------------------------------------------------
     def _case(self, kind, shuffle, script, tape, sess, origin="gen"):
@@ -39,6 +52,10 @@ class MgrProp(core.Prop):
                          nontrivial=finishes, tags=tags, origin=origin)
 
     def case_from_desc(self, desc):
+        if desc.get("stream") == "example-mgr":
+            return p_examples.mgr_case_from_desc(desc)
+        if desc.get("stream") == "example-modelled":
+            return p_examples.case_from_desc(desc)
         sess = mgr.run_concrete(desc["kind"], desc["shuffle"], desc["script"], desc["tape"], desc["ops"])
         return self._case(desc["kind"], desc["shuffle"], desc["script"], desc["tape"], sess)
 
@@ -65,9 +82,18 @@ class MgrProp(core.Prop):
                                    max_ops=rng.randint(40, 80) if long else rng.randint(2, 14),
                                    episodes=rng.randint(3, 6) if long else rng.randint(1, 3))
             yield self._case(kind, shuffle, script, tape, sess)
+        # the packaged examples that are modelled: real managers over real example objects ...
+        yield from p_examples.gen_mgr_cases(rng, 260 if quick else 6000)
+        if self.pid == "C01":
+            # ... and direct calls on them, judged WITH the read-and-reset clause of get_reward
+            yield from p_examples.gen_cases(rng, "example-modelled", 250 if quick else 5000, quick)
 
     # -- verdict ----------------------------------------------------------------------------
     def interpret(self, reply, case):
+        if case.desc.get("stream") == "example-mgr":
+            return p_examples.mgr_interpret(reply, case, self.spec_idx)
+        if case.desc.get("stream") == "example-modelled":
+            return p_examples.interpret(reply, case, ledger=True)
         trace, m1, m7, i1, i7 = reply
         ms = [m1, m7][self.spec_idx]
         is_ = [i1, i7][self.spec_idx]
@@ -75,7 +101,19 @@ class MgrProp(core.Prop):
             raise ValueError("driver could not parse the implementation trace")
         return core.Verdict(wire.enc(trace), ms == 1, is_ == 1)
 
+    def finding_matchers(self):
+        if self.pid != "C01":
+            return {}
+        return {"C01-E1": p_examples.c01_e1, "C02-E2": p_examples.array_truth_finding,
+                "C02-E3": p_examples.victim_ledger_finding, "C09-A1": p_examples.position_alias_finding}
+
     def shrink_candidates(self, desc):
+        if desc.get("stream") == "example-mgr":
+            yield from p_examples.mgr_shrink_candidates(desc)
+            return
+        if desc.get("stream") == "example-modelled":
+            yield from p_examples.shrink_candidates(desc)
+            return
         ops = desc["ops"]
         # drop a suffix, drop one op, drop one action, drop an agent's schedule complexity
         for k in range(len(ops) - 1, 0, -1):
